@@ -5,6 +5,8 @@ PROP = dict(
     case_type="Run_C13.case",
     check="Run_C13.check",
     shrink_field="ops",
+    shrink_budget_s=45,                      # total wall-clock budget for shrinking all reported disagreements of a run
+    harness_timeout=dict(quick=900, thorough=10000),
     technique=("Rocq proof (cache document model at JSON-tree level: encoder, the typed decoder of encoding/json for map[string]*cachedSecret, the file client's decoder; "
                "the store as an event machine over the shared store model with every Cache.Write as an effect; round trip, flush points, all-histories invariant, restart, "
                "file-client agreement, whole-document discard) + differential run: store histories with a restart (dead service) and a FileClient from the cache content after "
